@@ -13,18 +13,18 @@ type Flag struct {
 }
 
 var (
-	FString2Int64   = Flag{"String2Int64", func(o *conv.Options) { o.String2Int64 = true }}
-	FInt642String   = Flag{"Int642String", func(o *conv.Options) { o.Int642String = true }}
-	FNoBase64       = Flag{"NoBase64Binary", func(o *conv.Options) { o.NoBase64Binary = true }}
-	FByteAsUint8    = Flag{"ByteAsUint8", func(o *conv.Options) { o.ByteAsUint8 = true }}
-	FDisallow       = Flag{"DisallowUnknownField", func(o *conv.Options) { o.DisallowUnknownField = true }}
-	FValueMapping   = Flag{"EnableValueMapping", func(o *conv.Options) { o.EnableValueMapping = true }}
-	FThriftBase     = Flag{"EnableThriftBase", func(o *conv.Options) { o.EnableThriftBase = true }}
-	FNativeSkip     = Flag{"UseNativeSkip", func(o *conv.Options) { o.UseNativeSkip = true }}
-	FConvertExc     = Flag{"ConvertException", func(o *conv.Options) { o.ConvertException = true }}
-	FWriteRequire   = Flag{"WriteRequireField", func(o *conv.Options) { o.WriteRequireField = true }}
-	FWriteDefault   = Flag{"WriteDefaultField", func(o *conv.Options) { o.WriteDefaultField = true }}
-	FWriteOptional  = Flag{"WriteOptionalField", func(o *conv.Options) { o.WriteOptionalField = true }}
+	FString2Int64  = Flag{"String2Int64", func(o *conv.Options) { o.String2Int64 = true }}
+	FInt642String  = Flag{"Int642String", func(o *conv.Options) { o.Int642String = true }}
+	FNoBase64      = Flag{"NoBase64Binary", func(o *conv.Options) { o.NoBase64Binary = true }}
+	FByteAsUint8   = Flag{"ByteAsUint8", func(o *conv.Options) { o.ByteAsUint8 = true }}
+	FDisallow      = Flag{"DisallowUnknownField", func(o *conv.Options) { o.DisallowUnknownField = true }}
+	FValueMapping  = Flag{"EnableValueMapping", func(o *conv.Options) { o.EnableValueMapping = true }}
+	FThriftBase    = Flag{"EnableThriftBase", func(o *conv.Options) { o.EnableThriftBase = true }}
+	FNativeSkip    = Flag{"UseNativeSkip", func(o *conv.Options) { o.UseNativeSkip = true }}
+	FConvertExc    = Flag{"ConvertException", func(o *conv.Options) { o.ConvertException = true }}
+	FWriteRequire  = Flag{"WriteRequireField", func(o *conv.Options) { o.WriteRequireField = true }}
+	FWriteDefault  = Flag{"WriteDefaultField", func(o *conv.Options) { o.WriteDefaultField = true }}
+	FWriteOptional = Flag{"WriteOptionalField", func(o *conv.Options) { o.WriteOptionalField = true }}
 )
 
 // OptSet is one combination of flags.
